@@ -6,7 +6,9 @@ Implementation functions driven (real code from /repo/src):
   image.get_volume_from_series, Image.get_volume / get_volume_geometry on
   synthetic enhanced multi-frame CT datasets; Image.get_volume_geometry and
   Segmentation.get_volume_geometry with every combination of passed / defaulted
-  allow_missing_positions x allow_duplicate_positions (kind mf_geometry).
+  allow_missing_positions x allow_duplicate_positions (kind mf_geometry);
+  get_volume_positions on the same stack in two orders (kind order_pair, both
+  orders evaluated by the model) and on integer-typed positions (int_positions).
 Model: coq/theories/C11_Model.v; theorems: C11_Props.v.
 
 The oracle is independent of the model: every stack is generated from ideal
@@ -49,7 +51,9 @@ STRATA = ['perm_all', 'regular', 'unsorted', 'dups', 'gaps', 'jitter', 'shear', 
           'malformed', 'normal', 'series', 'plane_sort', 'sort_datasets', 'vol_series', 'vol_multiframe',
           'mf_geometry', 'order_pair', 'int_positions']
 NOT_EXECUTED = ['Segmentation.get_volume (same _prepare_volume_positions_table path, covered by C01/C02 harnesses)',
-                'tiled (slide coordinate system) branch of get_volume: no stacking involved']
+                'tiled (slide coordinate system) branch of get_volume: no stacking involved',
+                'slice_start / slice_end / as_indices of Image.get_volume (index standardisation: C03)',
+                'single-frame branch of _get_volume_geometry (one plane: no stack to recognise)']
 RULE = ('stacks of n <= 8 planes (<= 12 thorough) from integer ranks x spacing along the normal of 24 axis-aligned '
         'and 8 oblique rational orientations, 8 index conventions x 2 handedness; every permutation for n <= 4 '
         '(<= 5 thorough) and random permutations above; duplicates, gaps, jitter at 0.25/0.5/2/3 x tolerance '
@@ -361,6 +365,18 @@ def gen_cases(rng, tier):
         for conv in CONVS + BAD_CONVS[:2]:
             for hand in 'RL':
                 cases.append({'kind': 'normal', 'rc': _fs(rc), 'cc': _fs(cc), 'conv': conv, 'hand': hand})
+    # -- order_invariant, model-compared on BOTH orders: the same get_volume_positions stack (regular or not:
+    #    duplicates, gaps, jitter, shear, scrambled, hints) passed in a second order; the model evaluates both
+    #    orders (theorem C11_order_invariant), the oracle demands the same verdict / spacing and that every
+    #    plane keeps its index
+    pool = [c for c in cases if c['kind'] in ('regular', 'dups', 'gaps', 'jitter', 'shear', 'scrambled', 'hint',
+                                              'inplane')
+            and c['opts']['sort'] and len(c['pos']) >= 2]
+    for c in rng.sample(pool, min(len(pool), N)):
+        order = _perm(rng, len(c['pos']))
+        if rng.random() < 0.25:
+            order = list(reversed(range(len(c['pos']))))
+        cases.append(dict(c, kind='order_pair', perm=order))
     # -- dataset level
     for _ in range(N):
         n = rng.randint(1, min(nmax, 8))
@@ -464,20 +480,9 @@ def gen_cases(rng, tier):
                            'badhint', 'jit', 'shear', 'single', 'bothtol'])
         cases.append(_mk_geometry(rng, 'seg' if rng.random() < 0.35 else 'image', mode, rng.choice(tri),
                                   rng.choice(tri), rng.randint(2, 6)))
-    # -- order_invariant, model-compared on BOTH orders: the same get_volume_positions stack (regular or not:
-    #    duplicates, gaps, jitter, shear, scrambled, hints) passed in a second order; the model evaluates both
-    #    orders (theorem C11_order_invariant), the oracle demands the same verdict / spacing and that every
-    #    plane keeps its index
-    pool = [c for c in cases if c['kind'] in ('regular', 'dups', 'gaps', 'jitter', 'shear', 'scrambled', 'hint',
-                                              'inplane')
-            and c['opts']['sort'] and len(c['pos']) >= 2]
-    for c in rng.sample(pool, min(len(pool), 2 * N)):
-        order = _perm(rng, len(c['pos']))
-        if rng.random() < 0.25:
-            order = list(reversed(range(len(c['pos']))))
-        cases.append(dict(c, kind='order_pair', perm=order))
     # -- the reordered frames of mf_geometry cases as cases of their own (so the model sees the second order too)
-    for c in [c for c in cases if c['kind'] == 'mf_geometry' and c.get('perm_seed') is not None and len(c['pos']) > 1]:
+    for c in [c for c in cases if c['kind'] == 'mf_geometry' and c.get('perm_seed') is not None and len(c['pos']) > 1
+              and (tier != 'quick' or c['perm_seed'] % 2 == 0)]:
         import random as _random
         order = list(range(len(c['pos'])))
         _random.Random(c['perm_seed']).shuffle(order)
